@@ -117,8 +117,8 @@ def check_db(p, m, route, case, label):
     try:
         if route == 'api':
             # every second database is built with one Note object per distinct text, passed to every element that bears that text
-            p['extra']['api_builds'] = p['extra'].get('api_builds', 0) + 1
-            db = builder.build(m, share_notes=bool(p['extra']['api_builds'] % 2))
+            # (chosen by a digest of the case so that it is not aligned with any product dimension)
+            db = builder.build(m, share_notes=int(digest(case), 16) % 2 == 0)
         else:
             db = PyDBML(writer.write(m))
     except Exception as e:
